@@ -2,6 +2,7 @@
    raftLog.nextCommittedEnts for every storage and log state that is well formed (consecutive
    indexes: [ms_wf], [u_wf], established by C18); proofs in Proofs/LogProofs.v. *)
 From Coq Require Import List NArith.
+From RaftV Require AppendRefine SliceRefine.
 From RaftV Require Import Base Types Quorum Progress Tracker Storage Log Raft RawNode QuorumProofs RaftMono RaftRouting NodeProps PreVoteProofs LocalProofs FlowProofs LogProofs ConfProofs.
 Import ListNotations.
 Open Scope N_scope.
@@ -24,3 +25,12 @@ Theorem C08_batch_size : forall st l lo hi maxSize es e,
 Proof. exact l_slice_fits. Qed.
 Print Assumptions C08_batch_size.
 
+
+
+(* what is handed out is the logical log (Proofs/SliceRefine.v): the k-th committed entry of a batch is
+   the entry the node's logical log holds at index applying + 1 + k *)
+Theorem C08_handout_is_the_logical_log : forall st l allow es,
+  AppendRefine.l_wf st l -> l_next_committed_ents st l allow = Ok es ->
+  forall k e, nth_error es k = Some e -> a_at (AppendRefine.lview st l) (l_applying l + 1 + N.of_nat k) = Some e.
+Proof. exact SliceRefine.l_next_committed_ents_view. Qed.
+Print Assumptions C08_handout_is_the_logical_log.
